@@ -390,6 +390,23 @@ def run(prog, ctx):
         res.tri(verdict, "C08.V", "C08.V|%s|%s" % (ty, g.item_name), "counter arithmetic: %s" % wit, g.id)
     res.rule("C08.V", n_v, 4, "halve / decay of the unsigned counter types")
 
+    # ---------------- C08.V (constants) the public associated constants of every counter type: estimate() starts its minimum over the
+    # rows at T::MAX, so a MAX below the type's top caps every estimate (an under-count for large counters); ZERO / ONE seed totals
+    n_c = 0
+    for k in prog.facts.get("consts", []):
+        cid = k.get("id", "")
+        if "CountMinValue>::" not in cid or k.get("ty") not in ir.INT_RANGES or not isinstance(k.get("v"), int):
+            continue
+        nm = cid.rsplit("::", 1)[1]
+        want = {"MAX": ir.INT_RANGES[k["ty"]][1], "ZERO": 0, "ONE": 1}.get(nm)
+        if want is None:
+            continue
+        n_c += 1
+        res.tri(k["v"] == want, "C08.V", "C08.V|%s|%s" % (k["ty"], nm),
+                "counter type %s declares %s = %d, the type's %s is %d: estimate() takes the minimum over the rows starting from MAX, "
+                "so a counter above it is reported too low" % (k["ty"], nm, k["v"], nm.lower(), want), cid, k.get("span"))
+    res.rule("C08.V.consts", n_c, 24, "MAX / ZERO / ONE of the eight counter types")
+
     # ---------------- C08.S seeds
     mk = prog.fns.get("countmin::sketch::make_hash_seeds")
     if mk is not None:
